@@ -117,6 +117,10 @@ def gen_c30_scenario(rng, case):
                 ops.append({"k": "del", "kg": "default", "rel": rel, "tuples": [[i64(v) for v in t]]})
             else:
                 lines.append("// comment")
+        # a query somewhere in the program (it has no effect on the stored state; statements after it
+        # still run, and a syntax error after it must still refuse the whole program)
+        if rng.random() < 0.4:
+            lines.insert(rng.randint(0, len(lines)), rng.choice(["?m(X)", "?n(X, Y)"]))
         bad = rng.random() < 0.5
         if bad:
             broken = rng.choice(["+m(", "+m(1,, 2)", "-n(1 2", "+m[(1), (2", "?m(X", "p(X) <- ", "+q(X) <- m(X), ", "+m(1))", "m(X) <-- n(X)",
